@@ -114,12 +114,29 @@ def check_round_trip(stats):
     return probs[:4]
 
 
+def check_ladder():
+    """percentiles_for_sample_size over every count up to 20000 and around every power of ten up to 10^9 (BOUNDED; the ladder itself is proved by the contract when the
+    function is within the verifier's subset): depends on the count only, one more '9' per decade, ascending, ends with 100"""
+    from esrally import metrics
+
+    want = lambda n: [100] if n == 1 else [50] + [90, 99, 99.9, 99.99][: min(len(str(n)) - 1, 4)] + [100]  # noqa: E731
+    ns = list(range(1, 20001)) + [10**k + d for k in range(4, 10) for d in (-1, 0, 1)]
+    for n in ns:
+        try:
+            got = metrics.percentiles_for_sample_size(n)
+        except Exception as ex:  # noqa
+            return [f"percentiles_for_sample_size({n}) raised {type(ex).__name__}: {ex}"]
+        if list(got) != want(n):
+            return [f"percentiles_for_sample_size({n}) = {list(got)}, documented ladder gives {want(n)}"]
+    return []
+
+
 def main():
     if sys.argv[1] == "--replay":
         seed = json.load(open(sys.argv[2]))["case"].get("seed", 0)
         rnd = random.Random(seed)
         p, stats = check_results(rnd)
-        p = p + check_lookup() + check_round_trip(stats)
+        p = p + check_lookup() + check_round_trip(stats) + check_ladder()
         print(("REPRODUCED: " if p else "NOT-REPRODUCED: ") + (p[0] if p else "results pipeline scenario passes"))
         sys.exit(1 if p else 0)
     violations, cases = [], 0
@@ -131,14 +148,14 @@ def main():
         try:
             p, stats = check_results(rnd)
             if seed == 0:
-                p = p + check_lookup() + check_round_trip(stats)
+                p = p + check_lookup() + check_round_trip(stats) + check_ladder()
         except Exception as ex:  # noqa
             import traceback
 
             p = [f"the results pipeline raised {type(ex).__name__}: {ex} @ {traceback.format_exc().strip().splitlines()[-3][:140]}"]
         if p and len(violations) < 5:
             violations.append({"seed": seed, "problems": p[:4]})
-    json.dump({"bound": "40 random sample sets (1-3 tasks, warm-up + normal samples, failed requests), metrics lookup table, race.json round trip with zero-valued metrics", "cases": cases,
+    json.dump({"bound": "40 random sample sets (1-3 tasks, warm-up + normal samples, failed requests), metrics lookup table, race.json round trip with zero-valued metrics, percentile ladder for every count <= 20000 and around powers of ten <= 10^9", "cases": cases,
                "violations": violations}, open(sys.argv[1], "w"), indent=1)
     sys.exit(1 if violations else 0)
 
